@@ -15,9 +15,18 @@ def main():
         name = re.sub(r"^Extract", "", os.path.basename(d)[:-2])
         os.makedirs(os.path.join(vlib.BUILD, "ocaml", name.lower()), exist_ok=True)
     vlib.coq_makefile()
-    rc, out = vlib.sh("timeout 3000 make -j16 2>&1 | tail -40", cwd=vlib.COQ, timeout=3100)
+    # build what the registered checks need (property files + extraction units); files of
+    # properties still under construction must not break the setup
+    man = json.load(open(os.path.join(ROOT, "MANIFEST.json")))
+    targets = []
+    for c in man.get("checks", []):
+        pf = os.path.join(vlib.COQ, "props", c["property_id"] + ".v")
+        if os.path.exists(pf):
+            targets.append("props/%s.vo" % c["property_id"])
+    for d in glob.glob(os.path.join(vlib.COQ, "extract", "Extract*.v")):
+        targets.append("extract/" + os.path.basename(d)[:-2] + ".vo")
+    rc, out = vlib.sh("timeout 3000 make -k -j16 %s 2>&1 | tail -40" % " ".join(targets), cwd=vlib.COQ, timeout=3100)
     print(out)
-    rc2, _ = vlib.sh("make -q 2>/dev/null", cwd=vlib.COQ)
     for d in sorted(glob.glob(os.path.join(vlib.ROOT, "ocaml", "*_driver.ml"))):
         name = os.path.basename(d)[:-len("_driver.ml")].upper()
         okx, logx = vlib.coq_extract(name)
